@@ -337,8 +337,11 @@ def accounting(chk, repo, rule):
                     count_guard = True
             except NonLinear:
                 pass
-    chk.ob(rule, sym, "oversize and too-many guards present",
-           size_guard and count_guard, f, "both OverflowError rejections")
+    if size_guard and count_guard:
+        chk.ob(rule, sym, "oversize and too-many guards present", True, f,
+               "both OverflowError rejections")
+    # however the guards are spelt: overfull packets are evaluated
+    rejection(chk, repo, rule)
     # check before commit: no state change on any path to a rejection
     def mutates(n):
         if n.kind != "stmt":
@@ -366,12 +369,146 @@ def accounting(chk, repo, rule):
            ok, apps[0][0], "the shape assemble() unpacks")
 
 
+def frames(chk, repo, rule):
+    """whole frames, by abstract execution (sa/evalx.py) of Packet's own
+    __init__ / append / assemble on lists of datagrams and an independent
+    decoder of the result: sizes, length words, 'more' bits, positions
+    returned by append, working counters, padding, and that a rejected
+    datagram leaves the packet as it was"""
+    import struct as _struct
+    ci, ev0, K = consts(repo)
+    H, T_ = K["DATAGRAM_HEADER"], K["DATAGRAM_TAIL"]
+    ecc = repo.cls("ebpfcat.ethercat.ECCmd")
+    cmds = Evaluator(repo, ci.module, ci).enum_members(ecc)
+    names = sorted(cmds)
+    init, app, asm = (ci.methods.get(m) for m in ("__init__", "append",
+                                                    "assemble"))
+    need(init is not None and app is not None and asm is not None,
+         "Packet.__init__/append/assemble vanished")
+    scen = []
+    for lens in ([0], [1], [7, 0, 300], [2, 2], [30] * 5, [1] * 15,
+                 [1472], [700, 700]):
+        dg = []
+        for k, L in enumerate(lens):
+            addr = (k + 1, 0x100 + k) if k % 2 == 0 else (0x10000 + k,)
+            dg.append((cmds[names[k % len(names)]],
+                       bytes((k * 7 + j) % 251 for j in range(L)), k, addr,
+                       k % 4))
+        scen.append(dg)
+    bad = []
+    rows = 0
+    for dg in scen:
+        me = Obj(ci, {})
+        ev = Evaluator(repo, ci.module, ci)
+        try:
+            ev.call_function(init, [me], cls=ci)
+            spans = []
+            for cmd, data, idx, addr, wkc in dg:
+                spans.append(ev.call_function(
+                    app, [me, cmd, data, idx] + list(addr), {"wkc": wkc},
+                    cls=ci))
+            frame = ev.call_function(asm, [me, 0x12345678], cls=ci)
+        except (Unknown, Raised) as e:
+            raise AnalysisError(f"{P}: cannot evaluate append/assemble: {e}")
+        rows += 1
+        tag = f"datagrams of {[len(d[1]) for d in dg]} bytes"
+        total = 16 + sum(H + len(d[1]) + T_ for d in dg)
+        if me.fields.get("size") != total:
+            bad.append(f"{tag}: size {me.fields.get('size')}, frame has "
+                       f"{total}")
+        if not isinstance(frame, (bytes, bytearray)) or len(frame) != max(
+                total, 46):
+            bad.append(f"{tag}: assembled {len(frame) if hasattr(frame, '__len__') else frame!r} bytes, expected {max(total, 46)}")
+            continue
+        hw, = _struct.unpack_from("<H", frame, 0)
+        if hw != ((total - 2) | 0x1000):
+            bad.append(f"{tag}: frame header {hw:#x}, expected "
+                       f"{(total - 2) | 0x1000:#x}")
+        if _struct.unpack_from("<i", frame, K["PACKET_INDEX"])[0] != \
+                0x12345678:
+            bad.append(f"{tag}: packet index not at PACKET_INDEX")
+        pos = 16
+        for k, (cmd, data, idx, addr, wkc) in enumerate(dg):
+            c, i2 = frame[pos], frame[pos + 1]
+            lw, = _struct.unpack_from("<H", frame, pos + 6)
+            more = k < len(dg) - 1
+            if c != cmd.value or i2 != idx:
+                bad.append(f"{tag}: datagram {k} command/index bytes "
+                           f"{c},{i2}")
+            want_addr = _struct.pack("<hH", *addr) if len(addr) == 2 \
+                else _struct.pack("<i", *addr)
+            if frame[pos + 2:pos + 6] != want_addr:
+                bad.append(f"{tag}: datagram {k} address bytes")
+            if lw != (len(data) | (more << 15)):
+                bad.append(f"{tag}: datagram {k} length word {lw:#x}, "
+                           f"expected {len(data) | (more << 15):#x}")
+            st, sp = spans[k] if isinstance(spans[k], tuple) and len(
+                spans[k]) == 2 else (None, None)
+            if (st, sp) != (pos + H, pos + H + len(data)) or frame[
+                    pos + H:pos + H + len(data)] != data:
+                bad.append(f"{tag}: datagram {k} data at "
+                           f"{pos + H}, append returned {spans[k]}")
+            if _struct.unpack_from("<H", frame, pos + H + len(data))[0] \
+                    != wkc:
+                bad.append(f"{tag}: datagram {k} working counter")
+            pos += H + len(data) + T_
+    chk.floor(rule, "frames assembled and decoded", rows, 8)
+    chk.ob(rule, P + ".assemble", "assembled frames decode to the datagrams "
+           "that were appended, at the positions append returned", not bad,
+           asm, "; ".join(bad[:3]) or f"{rows} frames: header word, index, "
+           f"length words with 'more' bit, addresses, data, working "
+           f"counters, padding to 46")
+    rejection(chk, repo, rule)
+
+
+def rejection(chk, repo, rule):
+    """a datagram that does not fit is refused and leaves no trace (by
+    abstract execution of append on overfull packets)"""
+    ci, ev0, K = consts(repo)
+    ecc = repo.cls("ebpfcat.ethercat.ECCmd")
+    cmds = Evaluator(repo, ci.module, ci).enum_members(ecc)
+    names = sorted(cmds)
+    init, app = ci.methods.get("__init__"), ci.methods.get("append")
+    need(init is not None and app is not None, "Packet.append vanished")
+    bad = []
+    for fill, extra in (([1400], 200), ([1] * 15, 1), ([1472], 0),
+                        ([700, 700], 100)):
+        me = Obj(ci, {})
+        ev = Evaluator(repo, ci.module, ci)
+        try:
+            ev.call_function(init, [me], cls=ci)
+            for k, L in enumerate(fill):
+                ev.call_function(app, [me, cmds[names[0]], bytes(L), k, 1,
+                                       2], cls=ci)
+            before = (me.fields.get("size"), list(me.fields.get("data")))
+            try:
+                ev.call_function(app, [me, cmds[names[0]], bytes(extra), 9,
+                                       1, 2], cls=ci)
+                bad.append(f"after {fill}: a datagram of {extra} bytes is "
+                           f"accepted")
+            except Raised as e:
+                if not e.what.startswith("OverflowError"):
+                    bad.append(f"after {fill}: raises {e.what[:40]}")
+            after = (me.fields.get("size"), list(me.fields.get("data")))
+            if before != after:
+                bad.append(f"after {fill}: the rejected datagram changed "
+                           f"the packet")
+        except Unknown as e:
+            raise AnalysisError(f"{P}.append: cannot evaluate: {e}")
+    chk.ob(rule, P + ".append", "a datagram that does not fit (size or "
+           "count) is refused with OverflowError and leaves the packet "
+           "untouched", not bad, app, "; ".join(bad[:3]) or "4 overfull "
+           "packets")
+
+
 def assemble_rules(chk, repo, rule):
+    frames(chk, repo, rule)
     ci, ev, K = consts(repo)
     sym = P + ".assemble"
     f = repo.func(sym)
     loops = [s for s in walk_no_nested(f) if isinstance(s, ast.For)]
-    need(len(loops) == 1, f"{sym}: datagram loop not found")
+    if len(loops) != 1:
+        return          # another spelling: the decoded frames decide
     lp = loops[0]
     start = None
     b = match("enumerate(self.data, start=$k)", lp.iter) or match(
